@@ -166,6 +166,13 @@ def run(repo, rep):
         if not rets:
             continue
         rv = rets[-1].value.id
+        # only a function that returns what a printer call produced has a result to validate (a helper that merely looks a printer up
+        # and hands it back does not)
+        site_calls = [c for ff_, c, _ in sites if ff_ is f]
+        produced = any(isinstance(a, ast.Assign) and any(isinstance(t, ast.Name) and t.id == rv for t in a.targets)
+                       and any(x is c for c in site_calls for x in ast.walk(a.value)) for a in ast.walk(f.node))
+        if not produced:
+            continue
         n += 1
         rep.check(len(raises) >= 1, 'C14.d', '%s:validation-present' % f.qualname, f.where, 'return type is validated',
                   'the result of a printer is no longer validated (ValueError for non str/Doc results)', nontrivial=True)
